@@ -1,12 +1,57 @@
 """C01 - key agreement under an honest network and any crash/restore placement."""
-from .. import gen
+from .. import gen, worlds
 from .common import Hooks, place, body_of, identity_bytes, group_family, group_kind
 
 PROP = "C01"
 SHADOW = False
 
 
+def near_twin_scalars(rng, pspec, pw, k_bytes, where, cap=60000):
+    """two secret scalars whose Symmetric start() messages agree in their first (or last) k bytes
+    but differ elsewhere - found by a birthday walk over x*G + w*S in the reference model.
+    (Ordering / comparison of the two messages must use ALL their bytes.)"""
+    from .. import worlds
+    mp = worlds.model_params(pspec)
+    g = mp.group
+    if g.kind != "int" or g.elem_size <= k_bytes:
+        return None
+    blind = g.mul(mp.S, g.pw_scalar(pw))
+    x0 = rng.randrange(g.q)
+    e = g.add(g.mul(g.base, x0), blind)
+    seen = {}
+    for i in range(min(cap, g.q)):
+        enc = g.enc(e)
+        key = enc[:k_bytes] if where == "prefix" else enc[-k_bytes:]
+        if key in seen and seen[key][1] != enc:
+            return seen[key][0], (x0 + i) % g.q
+        seen.setdefault(key, ((x0 + i) % g.q, enc))
+        e = g.add(e, g.base)
+    return None
+
+
 def generate(rng, tier="quick"):
+    if rng.random() < 0.05:
+        # two Symmetric ends whose messages share a long prefix or suffix
+        for _ in range(4):
+            cfg = gen.gen_base_config(rng, flavour="S", mix=[("small", 1)])
+            ps = cfg["psets"][0]
+            es = worlds.model_group(ps["group"]).elem_size
+            if es < 2:
+                continue
+            k = rng.choice([es - 1, max(1, es - 2), 1, min(4, es - 1)])
+            tw = near_twin_scalars(rng, ps, bytes.fromhex(cfg["nodes"][0]["pw"]), k, rng.choice(["prefix", "prefix", "suffix"]))
+            if tw is None:
+                continue
+            for nd, x in zip(cfg["nodes"], tw):
+                nd["entropy"] = {"mode": "target", "v": str(x), "seed": rng.randrange(1 << 30)}
+            steps = []
+            for n in (0, 1):
+                steps += gen.gen_lifecycle(rng, n, 1, 0.3)
+            order = [(1, 0), (0, 1)]
+            rng.shuffle(order)
+            for src, dst in order:
+                steps.append({"op": "deliver", "src": src, "dst": dst})
+            return {"property": PROP, "config": cfg, "steps": steps, "intent": {"near_twin_bytes": k}}
     cfg = gen.gen_base_config(rng)
     q = gen.order_of(cfg["psets"][0]["group"])
     if q <= 64 and rng.random() < 0.4:
